@@ -609,10 +609,12 @@ class WLSim(object):
     def check_followed(self):
         """Decisions that were followed rather than predicted must still be draws with the probabilities the rule
         gives.  Bernstein's inequality: for independent Bernoulli(P_i) decisions, |sum(took_i - P_i)| >= t has
-        probability at most 2 exp(-t^2 / (2 (V + t/3))), V = sum P_i (1 - P_i).  The alarm is raised only where that
-        bound is below 1e-12: a correct implementation meets it less than once in 10^12 runs."""
+        probability at most 2 exp(-t^2 / (2 (V + t/3))), V = sum P_i (1 - P_i) (Freedman's form covers the P_i depending
+        on the past).  The alarm needs the exponent to exceed 40 (bound 8e-18): that leaves room for the test being
+        looked at after every step and for V being random (union over some 10^5 (step, variance level) pairs), so a
+        correct implementation meets it less than once in 10^12 runs."""
         t = abs(self.fol_S)
-        if self.fol_n >= 20 and t * t / (2.0 * (self.fol_V + t / 3.0)) > 27.7:
+        if self.fol_n >= 20 and t * t / (2.0 * (self.fol_V + t / 3.0)) > 40.0:
             self.viol("wrong_acceptance_frequency", "accept_freq", "over %d steps decided with numbers from outside the seam the proposals were accepted %s often than "
                       "min(1, exp(g_old - g_new)) allows: sum(accepted - P) = %.1f with variance %.1f (Bernstein bound < 1e-12)" % (
                           self.fol_n, "more" if self.fol_S > 0 else "less", self.fol_S, self.fol_V))
